@@ -47,6 +47,50 @@ def run(ctx: Ctx):
     if LOCK not in locks:
         raise AnalysisError(f"PeerConnection.{LOCK} is not a threading.Lock created in __init__")
 
+    # ---------------- R0 the buffer is an immutable value ------------------
+    ctx.rule("C15-R0", "_write_buffer is an immutable bytes value that is only ever rebound "
+                       "(never mutated in place): the object the I/O loop passes to send() "
+                       "cannot change or be resized under it", floor=2)
+    init = pc.methods.get("__init__")
+    cons = f"PeerConnection.__init__:{BUF}-is-bytes"
+    ctx.inst(cons)
+    ival = None
+    for n in A.walk_no_nested(init.node):
+        if isinstance(n, (ast.Assign, ast.AnnAssign)) and getattr(n, "value", None) is not None:
+            for t in A.store_targets(n):
+                if isinstance(t, ast.Attribute) and t.attr == BUF and A.dotted(t.value) == "self":
+                    ival = n.value
+    okb = isinstance(ival, ast.Constant) and isinstance(ival.value, bytes) or \
+        (isinstance(ival, ast.Call) and A.call_name(ival) == "bytes")
+    if not okb:
+        ctx.fail(cons, init.loc(), f"{BUF} starts as `{ast.unparse(ival) if ival is not None else None}`, "
+                 f"not an immutable bytes value: `+=` then grows the very object the I/O loop has "
+                 f"handed to socket.send() (BufferError while the export is held, the message is "
+                 f"dropped as 'unencodable'; or bytes change under a partial write)")
+    cons = f"{BUF}:never-mutated-in-place"
+    ctx.inst(cons)
+    MUT = {"extend", "append", "clear", "insert", "pop", "remove", "reverse", "__iadd__", "__setitem__",
+           "__delitem__"}
+    for fn in model.all_funcs():
+        if "node" not in fn.module.name:
+            continue
+        for n in A.walk_no_nested(fn.node):
+            bad = None
+            if isinstance(n, ast.Delete):
+                for t in n.targets:
+                    if isinstance(t, ast.Subscript) and isinstance(t.value, ast.Attribute) and t.value.attr == BUF:
+                        bad = n
+            elif isinstance(n, (ast.Assign, ast.AugAssign)):
+                for t in A.store_targets(n):
+                    if isinstance(t, ast.Subscript) and isinstance(t.value, ast.Attribute) and t.value.attr == BUF:
+                        bad = n
+            elif isinstance(n, ast.Call) and isinstance(n.func, ast.Attribute) and n.func.attr in MUT \
+                    and isinstance(n.func.value, ast.Attribute) and n.func.value.attr in (BUF, "write_buffer"):
+                bad = n
+            if bad is not None:
+                ctx.fail(cons, fn.loc(bad), f"`{ast.unparse(bad)[:80]}` mutates the write buffer in "
+                         f"place: the I/O loop may be inside send() on that very object")
+
     # ---------------- R1 lockset ----------------------------------------
     ctx.rule("C15-R1", "every store to _write_buffer outside __init__ holds the same "
                        "connection's write_lock", floor=2)
